@@ -69,7 +69,8 @@ def _alarm(signum, frame):
 
 # ------------------------------------------------------------------ Lean side
 
-def lake_build(log: list[str], pre=None, tie_broken: list | None = None) -> bool:
+def lake_build(log: list[str], pre=None, tie_broken: list | None = None, optional=None, opt_out: list | None = None,
+               build_ok=None) -> bool:
     lock = open(LEAN / ".build.lock", "w")
     fcntl.flock(lock, fcntl.LOCK_EX)
     try:
@@ -77,8 +78,15 @@ def lake_build(log: list[str], pre=None, tie_broken: list | None = None) -> bool
             # regenerated definitions are written under the same lock as the build
             tie_broken += pre(REPO, LEAN) or []
         p = subprocess.run(["lake", "build"], cwd=LEAN, capture_output=True, text=True)
-        log.append(p.stdout[-4000:] + p.stderr[-4000:])
-        return p.returncode == 0 and DRIVER.exists()
+        # every `error: <file>:<line>` line first (a long goal dump must not push them out of the kept tail)
+        errs = [l for l in (p.stdout + "\n" + p.stderr).splitlines() if re.match(r"error: (?:\./)?\S+?\.lean:\d+", l)]
+        log.append("\n".join(errs[:50]) + "\n" + p.stdout[-4000:] + p.stderr[-4000:])
+        ok = p.returncode == 0 and DRIVER.exists()
+        if ok and build_ok is not None:
+            build_ok(LEAN)
+        if ok and optional is not None and opt_out is not None:
+            opt_out.append(optional(REPO, LEAN))
+        return ok
     finally:
         fcntl.flock(lock, fcntl.LOCK_UN)
         lock.close()
@@ -207,14 +215,21 @@ def _run(prop, mod, tier, seed, work, t0, replay_file) -> int:
     # 1-2 build
     pre = getattr(mod, "pre_build", None)
     tie_broken: list[str] = []
-    built = lake_build(log, pre, tie_broken)
+    opt_res: list[dict] = []
+    built = lake_build(log, pre, tie_broken, getattr(mod, "optional_obligation", None), opt_res, getattr(mod, "build_ok", None))
     if not built:
         # a broken build that comes from regenerated definitions is a broken proof obligation
         gen_related = getattr(mod, "build_failure_is_tie", lambda txt: False)(log[-1])
         if not gen_related:
             print("lake build failed:\n" + log[-1][-3000:])
             return 2
-        tie_broken.append("lake build failed on regenerated definitions:\n" + log[-1][-2000:])
+        tie_broken.append("lake build failed on regenerated definitions:\n" + log[-1][:2500])
+        # put the last good generated definitions back and build again: the correspondence then runs the model that
+        # was proved for the last good source against the code as it is now (a diff there is the concrete replay)
+        restore = getattr(mod, "restore_generated", None)
+        if restore is not None:
+            restore()
+            built = lake_build(log, None, [])
     if built:
         # private copy of the driver: a concurrent `lake build` of another check may relink the binary
         import shutil
@@ -245,6 +260,26 @@ def _run(prop, mod, tier, seed, work, t0, replay_file) -> int:
                 print(f"audit: theorem {t} depends on inadmissible axioms {sorted(extra)}")
                 return 2
             discharged += 1
+    if tie_broken:
+        # the theorems that compiled are about the last good generated definitions, not about the source as it is now
+        discharged = 0
+    optional_report = None
+    if opt_res:
+        o = opt_res[0]
+        optional_report = {"module": o["module"], "theorems": o["theorems"], "reproved": False, "note": o["note"]}
+        if o["ok"] and built:
+            ax2, raw2 = audit_axioms(o["module"], o["theorems"], work)
+            good = all(t in ax2 and not (set(ax2[t]) - ALLOWED_AXIOMS) for t in o["theorems"])
+            optional_report["reproved"] = good
+            if good:
+                theorems += o["theorems"]
+                axioms.update(ax2)
+                discharged += len(o["theorems"]) if not tie_broken else 0
+            else:
+                optional_report["note"] = "axiom audit of the optional bridge failed:\n" + raw2[-800:]
+        if not optional_report["reproved"]:
+            print(f"NOTE: optional obligation {o['module']} not re-proved on this tree ({optional_report['note'].splitlines()[0][:160]}); "
+                  f"the property rests on the correspondence for that function")
 
     # 3b thorough tier: the independent re-checker replays the compiled proofs of the property's module
     leanchecker = None
@@ -367,6 +402,7 @@ def _run(prop, mod, tier, seed, work, t0, replay_file) -> int:
                 "rule": mod.RULE, "samples": samples, "distribution": dist,
                 "known_findings_hit": sorted(known_hits),
                 "tie_broken": tie_broken, "k2_diffs": len(k2_diffs), "leanchecker_exit": leanchecker,
+                "optional_obligation": optional_report,
                 **(getattr(mod, "extra_coverage", lambda: {})()),
             },
             "assumptions": list(getattr(mod, "ASSUMPTIONS", [])),
